@@ -156,6 +156,17 @@ where go : List CPolicy → Bool
   | [] => true
   | p :: ps => andOrNonEmpty p && go ps
 
+/-- no `TRIVIAL` anywhere -/
+def trivialFree : CPolicy → Bool
+  | .trivial => false
+  | .and subs => go subs
+  | .or subs => go subs
+  | .thresh _ subs => go subs
+  | _ => true
+where go : List CPolicy → Bool
+  | [] => true
+  | p :: ps => trivialFree p && go ps
+
 /-- every `thresh` has `k ≥ 1` (guaranteed by every `Threshold` constructor) -/
 def threshKPos : CPolicy → Bool
   | .and subs => go subs
